@@ -14,6 +14,18 @@ CHECKS = {
          "exhaustive enumeration of all header-kind sequences up to length L on the real VerifyRange vs a reference fold",
          "All sequences of length 0..4 (quick) / 0..6 (thorough) over 10 per-position header kinds, for non-zero and zero trusted headers, are run on the real VerifyRange; result must be input[:k] by identity with k computed by a reference fold, error iff k<len.",
          "Reference fold (C01 reference + adjacency) and the harness header type's Verify are trusted.", "2.1 C02"),
+ "C04": ("E1-seqx", "model_checking",
+         "explicit-state BFS over operation histories on the real store.Store (replay-from-scratch successors, state dedup), invariant oracle in every state",
+         "Breadth-first exploration of every history (depth 3 quick / 4 thorough) over Append of all contiguous slices (len<=3, thorough: gapped pairs), tail/head/whole/middle/beyond DeleteRange, Restart and ReadAll, for batch sizes {1,2,(3),64} x cache sizes {2,default} x {plain, context-aware+txn} datastore, on the real Store inside a synctest bubble; in every reached state the C04 clauses (gap-free Tail..Head, lookups by height/hash agree, Has/HasAt, all GetRange pairs, Height==Head, Head top of run, every live header readable) are evaluated against a set-of-live-heights model.",
+         "State key omits 2Q ghost lists; chain of 5-6 headers; Sync+quiescence after each op (the property is stated for synced writes).", "2.2 C04"),
+ "C08": ("E1-seqx", "model_checking",
+         "explicit-state enumeration: every reachable store state x every (from,to) pair x continuation x single write-fault position, executed on the real store and compared with the reference model",
+         "For each distinct state from the BFS (depth 2 quick / 3 thorough), all (from,to) pairs over 10 relative positions incl. 0 and 2^64-1, with/without a reading OnDelete handler; rejected ranges must leave observation vector and raw datastore image identical; accepted ones must remove raw keys, pending entries and every lookup, keep outside headers, set pointers, and stay deleted across 8 continuations (restart, appends, re-append); every position of one failing datastore write during the delete is enumerated with the part-way-failure oracle and retry.",
+         "Open findings F06/F07 (write-fault paths) are reported as KNOWN-FINDING; fault model = one failing write attempt (put/delete/batch/commit).", "2.2 C08"),
+ "C14": ("E1-seqx", "fault_enumeration",
+         "exhaustive enumeration of handler fault positions (handler i, invocation k, error|panic) over every reachable state x accepted range, sequential and parallel deletion path, on the real store",
+         "Every accepted range in every BFS state, with 1 and 2 registered handlers that read the header through GetByHeight, no fault and every (i,k,error|panic); oracle: per removed height each handler exactly once, header readable inside the handler, no datastore delete of its keys in the commit log before the last handler returned, failing height stays readable, error surfaced, tail-side retry re-invokes handlers and completes. The parallel path is reached by lowering the threshold through the verif hook.",
+         "Parallel path runs with real goroutines (48 workers) inside the bubble: its internal interleavings are sampled by the Go scheduler, not enumerated.", "2.2 C14"),
 }
 
 NOT_APPLICABLE = {}
@@ -61,6 +73,7 @@ def main():
         "engines": [
             {"name": "E0-bubble", "path": "harness/vk/bubble.go", "serves_properties": props, "kind_free_text": "testing/synctest bubble: virtual time, exact quiescence, leak/deadlock detection"},
             {"name": "E1-inputs", "path": "harness/pure", "serves_properties": ["C01", "C02"], "kind_free_text": "exhaustive input-product enumeration on the real functions vs reference oracle"},
+            {"name": "E1-seqx", "path": "harness/vk/bfs.go + harness/storex", "serves_properties": ["C04", "C06", "C08", "C14"], "kind_free_text": "explicit-state BFS over operation histories on the real store (fresh instance + replay per successor, canonical state key), LogDS commit-log/fault-injecting datastore"},
         ],
         "checks": checks,
         "not_applicable": na,
